@@ -40,9 +40,9 @@ PROPERTIES = {
         "level_note": "A1-A8; theorem L-conv assumed; rate measured only on the bounded family of bounded/C01.py.",
     },
     "C02": {
-        "modules": ["solver", "lemmas", "purity", "utilsc", "ivp"], "level": "proof", "floor": 1500,
+        "modules": ["solver", "lemmas", "purity", "utilsc", "ivp", "cachec"], "level": "proof", "floor": 1500,
         "assumptions": SOLVER_ASSUME, "trusted": [T["Z3"], T["D4"], T["DFT"], T["IVPC"]],
-        "explanation": "Reciprocity holds iff (B.2) both modes share the retained set and transfer functions, the footprint spectrum is H/N times cis(kappa.(r_m + P)) with P the PADDED offset (px*dx, py*dy), the footprint is transformed with the e^{-i} sums, and both are cropped by the pad widths: these are clauses of SC/TC proved on the code for symbolic sizes, halos (incl. None and incommensurate), truncations, levels and profiles; point_measurement returns sum(f*g).",
+        "explanation": "With a cache handed to the solve, two footprint requests whose lookup keys are equal have equal spectra, crops and grids (2-safety obligation rel.equal-keys-* over two symbolic runs of S: a request for one halo width is never served the Green's function of another). Reciprocity holds iff (B.2) both modes share the retained set and transfer functions, the footprint spectrum is H/N times cis(kappa.(r_m + P)) with P the PADDED offset (px*dx, py*dy), the footprint is transformed with the e^{-i} sums, and both are cropped by the pad widths: these are clauses of SC/TC proved on the code for symbolic sizes, halos (incl. None and incommensurate), truncations, levels and profiles; point_measurement returns sum(f*g).",
         "level_text": "All clauses the DFT reciprocity computation needs are postconditions of the real solver proved for all inputs; the computation itself (D4) is textbook and assumed.",
         "level_note": "A1-A8, D4 assumed (native conformance in bounded/C02.py); closures/precisions enter only through symbolic profiles and A1.",
     },
@@ -96,9 +96,9 @@ PROPERTIES = {
         "level_note": "A1-A6.",
     },
     "C12": {
-        "modules": ["purity", "ivp"], "level": "other", "floor": 1600,
+        "modules": ["purity", "ivp", "cachec"], "level": "other", "floor": 1600,
         "assumptions": SOLVER_ASSUME, "trusted": [T["Z3"], T["DFT"], T["IVPC"]],
-        "explanation": "PROVED (real arithmetic): the result term of S is the same specification for every value of config.NUM_THREADS and for both storage precisions (the spec mentions neither), S and ivp_solver read no module-level name other than the declared ones, declare no global, write no module attribute, have no mutable default, do not mutate their arguments; get_fft_manager returns a manager with the requested thread count from any previous state; fft2/ifft2 forward their argument and norm to the library transform of the same direction; the kernel wrapper returns the kernel of the decorated body on the same arguments from any _compiled state. NOT decided by contracts: bit-identity, 1e-12 agreement across thread settings/processes, 1e-5 single/double agreement (floating point, schedulers): BOUNDED call sequences (bounded/C12.py).",
+        "explanation": "PROVED (real arithmetic): history through an on-disk cache cannot change a result (rel.equal-keys-*: equal lookup keys imply equal spectra, crops and grids, two symbolic runs of S); the result term of S is the same specification for every value of config.NUM_THREADS and for both storage precisions (the spec mentions neither), S and ivp_solver read no module-level name other than the declared ones, declare no global, write no module attribute, have no mutable default, do not mutate their arguments; get_fft_manager returns a manager with the requested thread count from any previous state; fft2/ifft2 forward their argument and norm to the library transform of the same direction; the kernel wrapper returns the kernel of the decorated body on the same arguments from any _compiled state. NOT decided by contracts: bit-identity, 1e-12 agreement across thread settings/processes, 1e-5 single/double agreement (floating point, schedulers): BOUNDED call sequences (bounded/C12.py).",
         "level_text": "Frame conditions proved on the real code; floating-point and scheduling clauses are outside this family and covered by a bounded stand-in, labelled bounded.",
         "level_note": "A1 (this is exactly what hides the rounding-level clauses), A4.",
     },
@@ -134,17 +134,17 @@ PROPERTIES = {
 
 PROPERTIES.update({
     "C08": {
-        "modules": ["utilsc", "interface", "parser", "solver"], "level": "other", "floor": 300,
+        "modules": ["utilsc", "interface", "parser", "solver", "most"], "level": "other", "floor": 300,
         "assumptions": SOLVER_ASSUME, "trusted": [T["Z3"], T["DFT"], T["IVPC"]],
-        "explanation": "PROVED: compute_wind_fields returns -speed*(sin, cos)(dir*pi/180) for scalars and arrays (the stated convention: clockwise from north, direction the wind blows FROM), speed preserved (Pythagoras instance), cardinal directions blow toward S/W/N/E (exact sin/cos values); the interface hands wind=(u,v) in that order, the tower's local (x,y) as measurement point and (xmax,ymax) as domain (pipeline term of run_bldfm_single); tower local coordinates are x east / y north of the reference (parser); the solver's grid has X along the last axis with step dx and Y along the first with dy, u/Kx paired with kx (GEO/SC). NOT decided by contracts: 'the bearing from the tower to the footprint centroid equals the wind direction within a few degrees' is a quantitative statement about the PDE solution on a periodic discrete domain: BOUNDED runs over directions x stabilities x closures x grids (bounded/C08.py).",
+        "explanation": "PROVED: compute_wind_fields returns -speed*(sin, cos)(dir*pi/180) for scalars and arrays (the stated convention: clockwise from north, direction the wind blows FROM), speed preserved (Pythagoras instance), cardinal directions blow toward S/W/N/E (exact sin/cos values); the interface hands wind=(u,v) in that order, every closure (MOST, MOSTM, CONSTANT, OAAHOC) returns profiles along that same direction with exactly (u,v) at the measurement height (vertical_profiles: wind clauses), the tower's local (x,y) as measurement point and (xmax,ymax) as domain (pipeline term of run_bldfm_single); tower local coordinates are x east / y north of the reference (parser); the solver's grid has X along the last axis with step dx and Y along the first with dy, u/Kx paired with kx (GEO/SC). NOT decided by contracts: 'the bearing from the tower to the footprint centroid equals the wind direction within a few degrees' is a quantitative statement about the PDE solution on a periodic discrete domain: BOUNDED runs over directions x stabilities x closures x grids (bounded/C08.py).",
         "level_text": "Convention chain proved function by function; the physical centroid clause is outside contract reach and covered by a bounded stand-in, labelled bounded.",
         "level_note": "A1-A8; centroid bearing measured only on the bounded family.",
     },
     "C09": {
         "modules": ["most", "interface", "purity"], "level": "proof", "floor": 120,
         "assumptions": COMMON + [A["A2"], A["A8"]], "trusted": [T["Z3"]],
-        "explanation": "vertical_profiles (MOST, MOSTM, CONSTANT; z0 given / u* given; default and explicit stretch/domain height): first node = roughness length, node n = measurement height, wind vector reproduced at node n, direction constant, K = kappa u* z/(phi(z/L) Pr) (MOSTM split sums to K, none along the flow), diabatic log law, z0 <-> u* round trip returns identical grid and profiles; psi is the integral of the flux-gradient function (psi' = (phi_m - 1)/x on both branches by symbolic differentiation of the code's own expression), psi(0) = 0, psi and phi continuous at neutral, agreement with the reference model's _psiM/_phiC/_phiM. Positivity of K, strict monotonicity of the grid, reaching the domain height (inequalities over exp/log) and the OAAHOC closure are covered by the bounded stand-in only.",
-        "level_text": "Equalities of the closure proved in real arithmetic with named exp/log/pow/arctan axiom instances; inequalities and OAAHOC bounded.",
+        "explanation": "vertical_profiles (MOST, MOSTM, CONSTANT; z0 given / u* given; default and explicit stretch/domain height): first node = roughness length, node n = measurement height, wind vector reproduced at node n, direction constant, K = kappa u* z/(phi(z/L) Pr) (MOSTM split sums to K, none along the flow), diabatic log law, z0 <-> u* round trip returns identical grid and profiles; psi is the integral of the flux-gradient function (psi' = (phi_m - 1)/x on both branches by symbolic differentiation of the code's own expression), psi(0) = 0, psi and phi continuous at neutral, agreement with the reference model's _psiM/_phiC/_phiM. The OAAHOC closure (tke given or defaulted) is under the same contract: z0 = zm exp(-cm cl |U| sqrt(e)/u*^2), logarithmic wind reproducing (u,v) at node n, K = ch cl z sqrt(e), one-dimensional outputs. ORDER CLAUSES (SMT, exp/log uninterpreted with ground order instances only for the applications that occur, A8): the stretched grid is z = -h log A(k) with A(k) = E0 - k (E0 - Em)/n; for every node below the asymptote of the map (A(k) > 0, i.e. the node is not NaN) the grid is strictly increasing, every height >= z0 > 0, every K > 0 (for a positive friction velocity), and the top node is at or above the domain height (np.arange length fact, A2); for the DEFAULT grid (stretch = domain height = 2 zm) with n >= 2 layers every node is below the asymptote (value-view identities for the arange arguments + a polynomial lemma over fresh reals + rational enclosures of e^-1, e^-1/2). Left to the bounded stand-in: the premise A(N-1) > 0 for n = 1 and for explicit (stretch, domain_height) -- where it is FALSE for a domain height far above the stretch height (top node NaN; outside the property's quantifier, recorded as an interpretation note) -- and positivity of a DERIVED friction velocity (needs ln(zm/z0) + psi(zm/L) > 0).",
+        "level_text": "Equalities of the closure proved in real arithmetic with named exp/log/pow/arctan axiom instances; order clauses proved for every node below the asymptote of the grid map and for the whole default grid with n >= 2; the remaining premise is bounded.",
         "level_note": "A1, A2 (np.arange length), A8 (named axiom instances incl. derivative rules).",
     },
     "C17": {
